@@ -48,7 +48,7 @@ Record config := {
 Inductive api :=
 | QEnqC (j : nat)   (* note ENQ j *)
 | QEnq0 (j : nat)   (* unique_lock: Lock; then jobs_.emplace_back *)
-| QEnq1             (* cv_jobs_.notify_one() *)
+| QEnq1             (* cv_jobs_.notify_one()  [notify_all() is accepted as well] *)
 | QEnq2             (* ~unique_lock: Unlock *)
 | QTermC | QTerm0   (* note TERM; Lock *)
 | QTerm1            (* terminate_ = true *)
@@ -179,7 +179,10 @@ Definition api_step (fx sp : bool) (t : nat) (s : shared) (a : api) (e : ev) : o
   match a with
   | QEnqC j => match e with EUser UENQ x => if Nat.eqb x j then Some (s, Some (QEnq0 j)) else None | _ => None end
   | QEnq0 j => match e with ELock => match do_lock t s with Some s' => Some (push j s', Some QEnq1) | None => None end | _ => None end
-  | QEnq1 => match e with EN1 CJ w => match do_n1 CJ w s with Some s' => Some (s', Some QEnq2) | None => None end | _ => None end
+  | QEnq1 => match e with
+             | EN1 CJ w => match do_n1 CJ w s with Some s' => Some (s', Some QEnq2) | None => None end
+             | ENA CJ => Some (do_na CJ s, Some QEnq2)      (* an implementation may wake all idle workers instead of one *)
+             | _ => None end
   | QEnq2 => match e with EUnlock => match do_unlock t s with Some s' => Some (s', None) | None => None end | _ => None end
   | QTermC => match e with EUser UTERM x => if Nat.eqb x 0 then Some (s, Some QTerm0) else None | _ => None end
   | QTerm0 => match e with ELock => match do_lock t s with Some s' => Some (s', Some QTerm1) | None => None end | _ => None end
@@ -338,7 +341,7 @@ Definition reachable cfg sp := reachable_gen cfg true sp.
 Definition n1_cands c (s : shared) : list ev := EN1 c None :: map (fun u => EN1 c (Some u)) (ws c s).
 Definition api_cands (s : shared) (a : api) : list ev :=
   match a with
-  | QEnqC j => [EUser UENQ j] | QEnq0 _ => [ELock] | QEnq1 => n1_cands CJ s | QEnq2 => [EUnlock]
+  | QEnqC j => [EUser UENQ j] | QEnq0 _ => [ELock] | QEnq1 => ENA CJ :: n1_cands CJ s | QEnq2 => [EUnlock]
   | QTermC => [EUser UTERM 0] | QTerm0 => [ELock] | QTerm1 => [EAS ATerm 1] | QTerm2 => [ENA CJ]
   | QTerm3 => ENA CF :: n1_cands CF s | QTerm4 => [EUnlock]
   | QLEC => [EUser ULE 0] | QLE0 => [ELock] | QLE1 => [EAL ABusy (busy s); EWB CF] | QLE2 => [EWB CF]
